@@ -68,3 +68,9 @@ package exterrors
 //@ func UnwrapDNSErr
 //@   prop C09 C03 C05
 //@   ensures misc != nil && fresh(misc)
+// WithTemporary wraps an error in a value whose Temporary() is the flag given (trusted: one composite literal; the
+// errors.As model of prelude/errors.spec finds it first on the chain).
+//@ func WithTemporary
+//@   prop C05
+//@   trusted
+//@   ensures result != nil && isTemp(result) == temporary
